@@ -316,6 +316,46 @@ func installStdlib(m *Machine) {
 		}
 		return out, nil
 	}
+	// pure string functions on constants: the library itself gives the answer
+	concreteStrings := func(name string, arity int, f func(a []string, n []int64) (Value, bool)) {
+		m.Ext[name] = func(m *Machine, pos token.Pos, recv Value, args []Value) (Value, error) {
+			var ss []string
+			var ns []int64
+			for _, a := range args {
+				switch x := a.(type) {
+				case *Sym:
+					c, ok := x.Concrete()
+					if !ok {
+						return unknownCall(name, args), nil
+					}
+					ss = append(ss, c)
+				case int64:
+					ns = append(ns, x)
+				default:
+					return unknownCall(name, args), nil
+				}
+			}
+			if len(args) != arity {
+				return unknownCall(name, args), nil
+			}
+			if v, ok := f(ss, ns); ok {
+				return v, nil
+			}
+			return unknownCall(name, args), nil
+		}
+	}
+	concreteStrings("strings.Replace", 4, func(a []string, n []int64) (Value, bool) {
+		if len(a) != 3 || len(n) != 1 {
+			return nil, false
+		}
+		return Lit(strings.Replace(a[0], a[1], a[2], int(n[0]))), true
+	})
+	concreteStrings("strings.ReplaceAll", 3, func(a []string, n []int64) (Value, bool) {
+		if len(a) != 3 {
+			return nil, false
+		}
+		return Lit(strings.ReplaceAll(a[0], a[1], a[2])), true
+	})
 	m.Ext["strings.Repeat"] = func(m *Machine, pos token.Pos, recv Value, args []Value) (Value, error) {
 		if len(args) == 2 {
 			if s, ok := args[0].(*Sym); ok {
@@ -393,6 +433,19 @@ func installStdlib(m *Machine) {
 			i++
 			if i >= len(format) {
 				return unknownCall("fmt.Sprintf", args), nil
+			}
+			// an explicit argument index: %[2]s
+			if format[i] == '[' {
+				j := strings.IndexByte(format[i:], ']')
+				if j < 0 {
+					return unknownCall("fmt.Sprintf", args), nil
+				}
+				n, err := strconv.Atoi(format[i+1 : i+j])
+				if err != nil || n < 1 || n > len(rest) || i+j+1 >= len(format) {
+					return unknownCall("fmt.Sprintf", args), nil
+				}
+				ai = n - 1
+				i += j + 1
 			}
 			switch format[i] {
 			case '%':
